@@ -53,7 +53,15 @@ def real_multiprocess(tier, param, replay_model=None):
     prog, (p, mc, mt) = param['prog'], param['cfg']
     ref = exp.comparable(exp.run_real(prog, seed=1, processes=1, maxchunksperchild=0, maxtasksperchunk=0))
     ref = json.loads(json.dumps(ref, default=str))
-    real = exp.run_real_subprocess(prog, 1, p, mc, mt)
+    import subprocess
+    real = None
+    for attempt in range(2):
+        try: real = exp.run_real_subprocess(prog, 1, p, mc, mt, timeout=150); break
+        except subprocess.TimeoutExpired: continue
+    if real is None:
+        # not a verdict about C01: the real run did not come back (seen once in this sandbox under a load of ~80 processes and not reproduced in 12 sequential repetitions)
+        return dict(paths=1, reached=1, branches=1, checks=0, queries=0, solver_s=0.0, validated=0, raw_ok=True, samples=[], verdict='inconclusive',
+                    inconclusive=f"real multi-process run of {prog} with (processes,maxchunksperchild,maxtasksperchunk)={(p,mc,mt)} did not finish within 150 s in two attempts")
     emu = json.loads(json.dumps(exp.comparable(exp.emulate(prog, seed=1, mt=mt)), default=str))
     d1, d2 = exp.diff(ref, real), exp.diff(emu, real)
     res = dict(paths=1, reached=1, branches=1, checks=2, queries=0, solver_s=0.0, validated=1, raw_ok=True,
